@@ -245,7 +245,8 @@ func (w *Watcher) fetchEvents(ctx context.Context, logger *zap.Logger, client *C
 				unconfirmedEvents = append(unconfirmedEvents, unconfirmed...)
 
 				fromIndex = events.NextStart
-				if events.NextStart == *count {
+				// events may have been appended since the count request: stop as soon as the polled count is reached
+				if events.NextStart >= *count || len(events.Events) == 0 {
 					break
 				}
 			}
